@@ -121,3 +121,10 @@ def conversation(uid=1004, selected=0, order="g", version=0x00080004):
 def conn_case(frames, offered=0, auth=0, ram=0, order="g", name=b"rdp-rs", dom=b"d", user=b"u", pw=b"p"):
     return "conn %d %d %d %s %s %s %s %s %s" % (offered, auth, ram, order, hx(name), hx(dom), hx(user), hx(pw),
                                                " ".join(hx(f) for f in frames) if frames else "-")
+
+# ------------------------------------------------------------------ C02: negotiation cases
+def neg_case(reply, post, api="x224", offered=3, auth=1, ram=0, check=0, ident="0", order="g",
+             name=b"rdp-rs", dom=b"d", user=b"u", pw=b"p"):
+    """reply = bytes the server sends after the connection request (None: it closes); post = frames after the negotiation"""
+    return "neg %s %d %d %d %d %s %s %s %s %s %s %s %s" % (api, offered, auth, ram, check, ident, order, hx(name), hx(dom), hx(user), hx(pw),
+                                                          "-" if reply is None else hx(reply), " ".join(hx(f) for f in post) if post else "")
